@@ -164,7 +164,7 @@ fn project(w: &World) -> Value {
 	let mut v = project_wallet(w.w("A"), &opts);
 	// key indices of a refused / repeated hand-out may differ without any visible effect on funds:
 	// kept (the statement lists key indices)
-	v["pool"] = json!(w.node.mempool_len());
+	// node-side state (the pool) is not part of the compared state: the statement is about the wallet
 	v
 }
 
@@ -328,7 +328,7 @@ fn diff_signature(a: &Value, b: &Value) -> String {
 
 fn diff(a: &Value, b: &Value) -> Vec<String> {
 	let mut d = vec![];
-	for k in ["outputs", "txs", "accounts", "contexts", "pool"].iter() {
+	for k in ["outputs", "txs", "accounts", "contexts"].iter() {
 		if a[*k] != b[*k] {
 			match (a[*k].as_array(), b[*k].as_array()) {
 				(Some(x), Some(y)) => {
@@ -363,7 +363,7 @@ pub struct ScResult {
 	sample: Option<Value>,
 }
 
-fn explore_scenario(root: &str, base: &Snapshot, sc: &Scenario, bound: Option<usize>, wall: Duration, max_schedules: u64) -> ScResult {
+fn explore_scenario(root: &str, base: &Snapshot, sc: &Scenario, bound: Option<usize>, wall: Duration, max_schedules: u64, pinned: &[Vec<usize>]) -> ScResult {
 	let start = Instant::now();
 	let perms = permutations(sc);
 	let serial: Vec<Exec> = par_map(&perms, workers(), |i, order| run_serial(&format!("{}/c20-{}-s{}", root, sc.name, i), base, order));
@@ -389,6 +389,60 @@ fn explore_scenario(root: &str, base: &Snapshot, sc: &Scenario, bound: Option<us
 	let cap: Mutex<Option<String>> = Mutex::new(None);
 	let maxp = AtomicUsize::new(0);
 	let sample: Mutex<Option<Value>> = Mutex::new(None);
+	let eval = |prefix: &Vec<usize>| -> Vec<Vec<usize>> {
+		let dir = format!("{}/c20-{}-w{:?}", root, sc.name, std::thread::current().id()).replace("ThreadId(", "").replace(")", "");
+		let e = run_schedule(&dir, base, sc, prefix);
+		count.fetch_add(1, Ordering::SeqCst);
+		let log = e.log.as_ref().unwrap();
+		maxp.fetch_max(log.choices.len(), Ordering::SeqCst);
+		if let Some(err) = &log.error {
+			*machinery.lock().unwrap() = Some(format!("{} (scenario {}, prefix {:?})", err, sc.name, prefix));
+		}
+		// children: one more deviation at any later point
+		let mut children = vec![];
+		for i in prefix.len()..log.choices.len() {
+			for alt in 1..log.enabled[i].len() {
+				let mut p: Vec<usize> = log.choices[..i].to_vec();
+				p.push(alt);
+				children.push(p);
+			}
+		}
+		let h = hash_value(&e.proj);
+		*finals.lock().unwrap().entry(h).or_insert(0) += 1;
+		let replay = json!({"scenario": sc, "schedule": log.choices});
+		if log.deadlock {
+			findings.lock().unwrap().push(Finding { key: format!("C20/deadlock/{}", sc.name), what: format!("no enabled thread with unfinished threads under schedule {:?}", log.choices), replay: replay.clone() });
+		}
+		for p in e.panics.iter() {
+			findings.lock().unwrap().push(Finding { key: format!("C20/panic/{}", sc.name), what: format!("{} under schedule {:?}", p, log.choices), replay: replay.clone() });
+		}
+		if !log.deadlock && log.error.is_none() && !serial_set.iter().any(|x| x.0 == h) {
+			let mut best: Option<(usize, Vec<String>, &Vec<Unit>)> = None;
+			for (_, se, o) in serial_set.iter() {
+				let d = diff(&e.proj, &se.proj);
+				if best.as_ref().map(|b| d.len() < b.0).unwrap_or(true) {
+					best = Some((d.len(), d, o));
+				}
+			}
+			let (_, d, o) = best.unwrap();
+			let nearest = serial_set.iter().find(|x| std::ptr::eq(x.2, o)).unwrap().1;
+			let key = format!("C20/non-serializable/{}/{}", sc.name, diff_signature(&e.proj, &nearest.proj));
+			findings.lock().unwrap().push(Finding {
+				key,
+				what: format!("final wallet state under schedule {:?} (outcomes {:?}) equals no serial order; nearest is {:?}, from which it differs in: {}", log.choices, e.labels, o, d.join("; ")),
+				replay,
+			});
+		} else if sample.lock().unwrap().is_none() && log.choices.iter().any(|c| *c != 0) {
+			*sample.lock().unwrap() = Some(json!({"scenario": sc.name, "schedule": log.choices, "enabled_at_each_point": log.enabled, "outcomes": e.labels}));
+		}
+		let _ = std::fs::remove_dir_all(&dir);
+		children
+	};
+	// pinned schedules (the recorded schedules of known findings) run in every tier, outside the budget
+	if !pinned.is_empty() {
+		let pv: Vec<Vec<usize>> = pinned.to_vec();
+		let _ = par_map(&pv, workers(), |_i, p| (eval(p), ()));
+	}
 	let mut level: Vec<Vec<usize>> = vec![vec![]];
 	let mut depth = 0usize;
 	let mut completed_level: Option<usize> = None;
@@ -410,56 +464,7 @@ fn explore_scenario(root: &str, base: &Snapshot, sc: &Scenario, bound: Option<us
 			*cap.lock().unwrap() = Some(format!("wall cap {:?}: level {} ({} schedules) not run", wall, depth, level.len()));
 			break;
 		}
-		let results: Vec<(Vec<Vec<usize>>, ())> = par_map(&level, workers(), |wi, prefix| {
-			let dir = format!("{}/c20-{}-w{:?}", root, sc.name, std::thread::current().id()).replace("ThreadId(", "").replace(")", "");
-			let _ = wi;
-			let e = run_schedule(&dir, base, sc, prefix);
-			count.fetch_add(1, Ordering::SeqCst);
-			let log = e.log.as_ref().unwrap();
-			maxp.fetch_max(log.choices.len(), Ordering::SeqCst);
-			if let Some(err) = &log.error {
-				*machinery.lock().unwrap() = Some(format!("{} (scenario {}, prefix {:?})", err, sc.name, prefix));
-			}
-			// children: one more deviation at any later point
-			let mut children = vec![];
-			for i in prefix.len()..log.choices.len() {
-				for alt in 1..log.enabled[i].len() {
-					let mut p: Vec<usize> = log.choices[..i].to_vec();
-					p.push(alt);
-					children.push(p);
-				}
-			}
-			let h = hash_value(&e.proj);
-			*finals.lock().unwrap().entry(h).or_insert(0) += 1;
-			let replay = json!({"scenario": sc, "schedule": log.choices});
-			if log.deadlock {
-				findings.lock().unwrap().push(Finding { key: format!("C20/deadlock/{}", sc.name), what: format!("no enabled thread with unfinished threads under schedule {:?}", log.choices), replay: replay.clone() });
-			}
-			for p in e.panics.iter() {
-				findings.lock().unwrap().push(Finding { key: format!("C20/panic/{}", sc.name), what: format!("{} under schedule {:?}", p, log.choices), replay: replay.clone() });
-			}
-			if !log.deadlock && log.error.is_none() && !serial_set.iter().any(|x| x.0 == h) {
-				let mut best: Option<(usize, Vec<String>, &Vec<Unit>)> = None;
-				for (_, se, o) in serial_set.iter() {
-					let d = diff(&e.proj, &se.proj);
-					if best.as_ref().map(|b| d.len() < b.0).unwrap_or(true) {
-						best = Some((d.len(), d, o));
-					}
-				}
-				let (_, d, o) = best.unwrap();
-				let nearest = serial_set.iter().find(|x| std::ptr::eq(x.2, o)).unwrap().1;
-				let key = format!("C20/non-serializable/{}/{}", sc.name, diff_signature(&e.proj, &nearest.proj));
-				findings.lock().unwrap().push(Finding {
-					key,
-					what: format!("final wallet state under schedule {:?} (outcomes {:?}) equals no serial order; nearest is {:?}, from which it differs in: {}", log.choices, e.labels, o, d.join("; ")),
-					replay,
-				});
-			} else if sample.lock().unwrap().is_none() && log.choices.iter().any(|c| *c != 0) {
-				*sample.lock().unwrap() = Some(json!({"scenario": sc.name, "schedule": log.choices, "enabled_at_each_point": log.enabled, "outcomes": e.labels}));
-			}
-			let _ = std::fs::remove_dir_all(&dir);
-			(children, ())
-		});
+		let results: Vec<(Vec<Vec<usize>>, ())> = par_map(&level, workers(), |_wi, prefix| (eval(prefix), ()));
 		completed_level = Some(depth);
 		let mut next: Vec<Vec<usize>> = vec![];
 		for (children, _) in results {
@@ -571,6 +576,15 @@ pub fn run(_args: &[String]) -> i32 {
 	base_world(&based);
 	let base = Snapshot::capture(&based);
 	let mut scs = scenarios(thorough);
+	// recorded schedules of the known findings: re-run in every tier (pinned/C20.json, committed)
+	let pinned: Vec<Value> = std::fs::read(format!("{}/pinned/C20.json", verif_root())).ok().and_then(|b| serde_json::from_slice(&b).ok()).unwrap_or_default();
+	if !thorough {
+		for q in scenarios(true).into_iter() {
+			if !scs.iter().any(|s| s.name == q.name) && pinned.iter().any(|p| p["scenario"]["name"] == json!(q.name)) {
+				scs.push(q);
+			}
+		}
+	}
 	if let Ok(f) = std::env::var("GWV_C20_SCENARIO") {
 		// development aid: restrict to scenarios whose name contains the given text
 		scs = scenarios(true).into_iter().filter(|s| s.name.contains(&f)).collect();
@@ -583,8 +597,10 @@ pub fn run(_args: &[String]) -> i32 {
 	let mut distinct_total = 0usize;
 	let per_wall = Duration::from_secs(std::env::var("GWV_C20_WALL").ok().and_then(|v| v.parse().ok()).unwrap_or(if thorough { 1500 } else { 60 }));
 	for sc in scs.iter() {
-		let budget: u64 = std::env::var("GWV_C20_BUDGET").ok().and_then(|v| v.parse().ok()).unwrap_or(if thorough { 40_000 } else { 450 });
-		let r = explore_scenario(&root, &base, sc, None, per_wall, budget);
+		let budget: u64 = std::env::var("GWV_C20_BUDGET").ok().and_then(|v| v.parse().ok()).unwrap_or(if thorough { 40_000 } else { 700 });
+		let pins: Vec<Vec<usize>> = pinned.iter().filter(|p| p["scenario"]["name"] == json!(sc.name)).filter_map(|p| serde_json::from_value(p["schedule"].clone()).ok()).collect();
+		let pinned_only = !thorough && std::env::var("GWV_C20_SCENARIO").is_err() && !scenarios(false).iter().any(|q| q.name == sc.name);
+		let r = explore_scenario(&root, &base, sc, None, per_wall, if pinned_only { 0 } else { budget }, &pins);
 		total += r.schedules;
 		distinct_total += r.distinct_final;
 		if r.cap_hit.is_some() {
@@ -610,7 +626,7 @@ pub fn run(_args: &[String]) -> i32 {
 	rep.cov("distinct_nontrivial", json!(distinct_total));
 	rep.cov("rule", json!("one execution = one complete schedule (choice at every wallet-lock / node-call scheduling point) of real threads; distinct_nontrivial = distinct final wallet projections summed over scenarios"));
 	rep.cov("exhaustive", json!(exhaustive));
-	rep.cov("schedule_budget_per_scenario", json!(std::env::var("GWV_C20_BUDGET").ok().and_then(|v| v.parse::<u64>().ok()).unwrap_or(if thorough { 40_000 } else { 450 })));
+	rep.cov("schedule_budget_per_scenario", json!(std::env::var("GWV_C20_BUDGET").ok().and_then(|v| v.parse::<u64>().ok()).unwrap_or(if thorough { 40_000 } else { 700 })));
 	rep.cov("scenarios", Value::Object(per));
 	rep.cov("samples", json!(samples));
 	rep.assume("granularity = wallet-mutex acquisitions and node calls; all shared wallet state is behind that one mutex");
